@@ -8,11 +8,14 @@ def run(tier, seed):
     thorough = tier == 'thorough'
     nmax = 6 if thorough else 5      # (n = 7 is 5040 tapes per case: about 45 minutes for the tier, beyond its budget)
     reads = 4 if thorough else 3
+    longrun = 72 if thorough else 40
     cases = [
         Case('UintN_contract', 'random', 'zzC15_UintN_contract', [reads]),
         Case('UintN_uniform', 'random', 'zzC15_UintN_uniform'),
         Case('negative', 'random', 'zzC15_negative'),
     ]
+    for n in ((3, 5, 6, 7, 129, 257, (1 << 32) + 1, (1 << 63) + 1) if thorough else (3, 6, 257, (1 << 63) + 1)):
+        cases.append(Case('UintN_long_n%d' % n, 'random', 'zzC15_UintN_long', [n, longrun]))
     for n in range(0, nmax + 1):
         cases.append(Case('Permutation_n%d' % n, 'random', 'zzC15_Permutation', [n]))
     smax = nmax if thorough else 4
@@ -30,6 +33,7 @@ def run(tier, seed):
     return run_check('C15', cases, tier, seed,
         functions=FUNCS,
         bounds={'UintN': 'n fully symbolic (64 bit), buffer pre-state symbolic, rejection loop unwound %d attempts (longer tapes cut by an assumption; each attempt is independent fresh tape)' % reads,
+                'UintN long runs': 'concrete n in a boundary set (3, 6, 257, 2^63+1; thorough adds 5, 7, 129, 2^32+1), every tape with up to %d consecutive attempts: the result is the first in-range masked sample' % longrun,
                 'Permutation/SubPermutation/Samples/Shuffle': 'n <= %d, all m in [-1, n+1], every tape without rejected attempts (rejections re-draw independently)' % nmax,
                 'outside': 'n > %d for the permutation bijection; probability statements are derived outside the solver from the bijections proved here' % nmax},
         assumptions=['randCore.Read returns arbitrary bytes (tape); UintN bijection lemma quantifies over tapes accepted at the first attempt',
